@@ -40,6 +40,7 @@ let t3_drop = ref false
    model's: from then on the case is no longer an execution of the unchanged semantics, and a violation found in it is not
    attributed to a known finding (the known findings are behaviours of the unchanged crate, which the model reproduces) *)
 let deviated = ref false
+let mon_closures : sx list ref = ref []
 let has_pending_ (s : sx) : bool =
   let rec go = function
     | L [A "deferred"; L (A "M" :: (_ :: _))] -> true
@@ -72,7 +73,7 @@ let expect prop what b = count prop; if not b then report prop (what ())
 let expect_all props what b = List.iter (fun p -> expect p what b) props
 
 let on_case (_id : string) (t : string) (line : string) =
-  t3_drop := false; deviated := false;
+  t3_drop := false; deviated := false; mon_closures := [];
   ty := t; tainted := false; merges_seen := false; all_causal := true; all_per_actor := true; hist := []; pre := []; case_nontrivial := false; classes := [];
   Hashtbl.reset know_of; last_vm := None;
   (match parse_sx line with
@@ -416,6 +417,20 @@ let ctx_call pre_ fn a =
 let opctor_call pre_ fn a =
   let vleq_ a b = List.for_all (fun (x, n) -> int_of_n n <= int_of_n (vget b x)) (vc_to_list a) in
   (match pre_, fn, a with
+   (* Map::update hands its closure the add context it was given: it covers every update the replica has applied (C07),
+      so a nested write made with it supersedes what the replica holds under the key (C05) *)
+   | _, "update.closure", [_; c] when is_map pre_ -> mon_closures := c :: !mon_closures
+   | _, "update", [_; _; ctx; _] when is_map pre_ ->
+       (match !mon_closures with
+        | c :: tl ->
+            mon_closures := tl;
+            let given = vc_sx (field "clock" ctx) and got = vc_sx (field "clock" c) in
+            List.iter (fun p ->
+              count p;
+              if not (vleq_ given got) then
+                report p (Printf.sprintf "Map::update was given the add context %s but hands its closure %s, which does not cover it" (show_vc given) (show_vc got)))
+              ["C07"; "C05"]
+        | [] -> ())
    | "mvreg", "write", [v; ctx; op] ->
        (match mvop_sx op with
         | MVPut (c, v') ->
